@@ -161,7 +161,7 @@ func Family(o FamilyOpts) []*Model {
 			for _, mb := range mopts {
 				for _, pr := range popts {
 					m := &Model{Types: map[string]map[string]*RelDef{
-						"user":  {},
+						"user": {},
 						// group#r1 makes "r1 from parent" with parent: [doc, group] a tuple-to-userset whose
 						// computed relation exists on BOTH parent types, with different depths
 						"group": {"member": {mb.e, mb.r}, "banned": {This(), []Restr{{Type: "user"}}}, "r1": {This(), []Restr{{Type: "user"}}}},
